@@ -12,3 +12,8 @@ func VerifNewClient() *Client {
 func verifSSHResolveStub(c *Client, e Endpoint, method string) (*sshAuthResponse, error) {
 	return &sshAuthResponse{}, nil
 }
+
+// VerifNewClientGit: an HTTP client with the given Git configuration.
+func VerifNewClientGit(gitcfg map[string][]string) *Client {
+	return &Client{gitEnv: config.EnvironmentOf(config.MapFetcher(gitcfg))}
+}
